@@ -11,6 +11,7 @@ CONSTANTS
   FixPred = %(fp)s
   FixLeave = %(fl)s
   FixWrap = %(fw)s
+  FixDead = %(fd)s
   MaxTry = 2
   TrackCov = FALSE
   Goal = "none"
@@ -30,7 +31,7 @@ CHECK_DEADLOCK FALSE
 
 def cfg(fixself, lay="LayR4", init="{1, 3, 4}", j="{2}", l="{3}", B=3, inv="InvTerminates InvLookupCorrect"):
     t = lambda b: "TRUE" if b else "FALSE"
-    return CFG % dict(inv=inv, fp=t(ringcheck.CODE_FIXPRED), fl=t(ringcheck.CODE_FIXLEAVE), fw=t(ringcheck.CODE_FIXWRAP), lay=lay, init=init, j=j, l=l, B=B, fs=t(fixself))
+    return CFG % dict(inv=inv, fp=t(ringcheck.CODE_FIXPRED), fl=t(ringcheck.CODE_FIXLEAVE), fw=t(ringcheck.CODE_FIXWRAP), fd=t(ringcheck.CODE_FIXDEAD), lay=lay, init=init, j=j, l=l, B=B, fs=t(fixself))
 
 
 def replay(ck, binary, sc, origin):
